@@ -235,4 +235,20 @@ def adminOnly (developer isAuth : Bool) : Option MutResult :=
   if developer || isAuth then none            -- an administrator: the outcome depends on the request, not modelled
   else some { ok := false, changed := false }
 
+/-! ## data level: the WHERE clause of the job listings (`parse_job_group_jobs_query_v1/v2`)
+
+`where_conditions = ['(jobs.batch_id = %s AND batch_updates.committed)', …]` joined with AND; a state term contributes
+`((jobs.state = %s) OR (jobs.state = %s) …)` — WITH the outer parentheses. -/
+
+/-- a row passes the generated WHERE clause: batch filter AND (one of the states) -/
+def whereJobs (rowBatch reqBatch rowState : Nat) (states : List Nat) : Bool :=
+  rowBatch == reqBatch && states.any (· == rowState)
+
+/-- NOT the code: the state disjunction appended without its outer parentheses; SQL's AND binds tighter than OR, so only the first
+state stays under the batch filter -/
+def whereJobsBare (rowBatch reqBatch rowState : Nat) (states : List Nat) : Bool :=
+  match states with
+  | [] => rowBatch == reqBatch
+  | s :: rest => (rowBatch == reqBatch && s == rowState) || rest.any (· == rowState)
+
 end HailVerif.Access
